@@ -126,6 +126,11 @@ func (i *liveInfo) ReportServiceShipID(ski string, id string) {
 }
 func (i *liveInfo) HandleShipHandshakeStateUpdate(ski string, s model.ShipState) {
 	i.lc.ev("c.rep", vh.StName(s.State), "")
+	if d := i.lc.n.holdHello; d > 0 && s.State == model.SmeHelloStateOk {
+		// the goroutine that reports hello-ok is held for a moment before the hub hears of it (a legal schedule: it may be
+		// preempted there), so that an Unregister / Cancel from the user's goroutine falls before the report
+		time.Sleep(d)
+	}
 	i.real.HandleShipHandshakeStateUpdate(ski, s)
 }
 func (i *liveInfo) SetupRemoteDevice(ski string, w api.ShipConnectionDataWriterInterface) api.ShipConnectionDataReaderInterface {
